@@ -277,12 +277,26 @@ def r_shuf(ctx):
                 if tg[0] == 'sub' and idx is not None and idx[0] == 'tuple' and len(idx) == 3 and \
                         idx[1] == ('slice', NONE, NONE, NONE) and idx[2][0] == 'c':
                     cols.setdefault(idx[2][1], []).append((nd, val))
+                elif tg[0] == 'sub' and idx is not None and idx[0] == 'slice' and idx == ('slice', NONE, NONE, NONE):
+                    pass        # whole-table broadcast: judged by rows-start-as-identity
                 elif tg[0] == 'sub' and idx is not None and idx[0] != 'tuple' and isinstance(d.extra.value, ast.Name):
                     rowstores.append((nd, idx, val, nd.stmt.value))
                 else:
                     other.append((nd, tg))
     ident = set(cols) == {1, 2, 3} and all(len(v) == 1 and v[0][1] == ('c', c) for c, v in cols.items())
-    run.check(ident, 'R-SHUF', f, 'rows-start-as-identity', f.node.lineno, 'columns 1..3 initialised to 1..3 over zeros',
+    # broadcast forms: table[:] = range(4) / arange(4) / [0, 1, 2, 3]
+    for nd in f.nodes:
+        for d in nd.defs:
+            if d.kind == 'mutate' and d.name == tab and isinstance(d.extra, ast.Subscript) and isinstance(nd.stmt, ast.Assign):
+                tg = f.term(_as_load(d.extra), nd)
+                val = f.term(nd.stmt.value, nd)
+                if tg[0] == 'sub' and tg[2] in (('slice', NONE, NONE, NONE), ('tuple', ('slice', NONE, NONE, NONE), ('slice', NONE, NONE, NONE))):
+                    if (is_call(val, 'builtins.range', 'numpy.arange') and val[2] == (('c', 4),)) or \
+                            val == ('list', ('c', 0), ('c', 1), ('c', 2), ('c', 3)) or val == ('tuple', ('c', 0), ('c', 1), ('c', 2), ('c', 3)):
+                        ident = True
+                        other = [o for o in other if o[0] is not nd]
+    wit_ident = bool(cols) and not ident        # column stores were recognised and are not the identity
+    _tri(run, ident, wit_ident, 'R-SHUF', f, 'rows-start-as-identity', f.node.lineno, 'columns 1..3 initialised to 1..3 over zeros',
               'the initial rows are not the identity permutation: column stores %s'
               % {c: [show(v)[:10] for _, v in vs] for c, vs in cols.items()},
               inputs='every row: a value is missing / duplicated, so rows are not permutations of 0..3')
@@ -311,7 +325,8 @@ def r_shuf(ctx):
                 why = 'the written row is not the view of the same row'
             elif not mut_ok:
                 why = 'the row is modified by something other than random.shuffle'
-        run.check(okrow, 'R-SHUF', f, 'row-write-back#%d' % n, nd.lineno, 'write-back of the row view permuted by random.shuffle',
+        wit_row = not isinstance(vast, ast.Name)      # something computed (sorted(card), a copy ...) is written over the row
+        _tri(run, okrow, wit_row, 'R-SHUF', f, 'row-write-back#%d' % n, nd.lineno, 'write-back of the row view permuted by random.shuffle',
                   'a row of the table is overwritten with something that is not the shuffled view of that row (%s): rows may '
                   'stop being permutations' % why, inputs='every row')
     # seed dominates every draw
@@ -334,7 +349,21 @@ def r_shuf(ctx):
     loops = [nd for nd in f.nodes if nd.kind == 'for']
     okl = any(is_call(f.term(nd.stmt.iter, nd), 'builtins.range') and len(f.term(nd.stmt.iter, nd)[2]) == 1 and
               is_pow4k(f.term(nd.stmt.iter, nd)[2][0], K) for nd in loops)
-    run.check(okl, 'R-SHUF', f, 'all-rows-in-order', loops[0].lineno if loops else f.node.lineno, 'rows 0..4^K-1 in order',
+    for nd in loops:
+        it = f.term(nd.stmt.iter, nd)
+        src = it[2][0] if is_call(it, 'builtins.enumerate') and it[2] else it
+        if src[0] == 'v' and src[1] == tab:
+            okl = True
+        if is_call(src, 'builtins.range') and len(src[2]) == 1 and src[2][0][0] == 'v':
+            tt = src[2][0]
+            for d in f.defs:
+                if d.name == tt[1] and d.kind == 'assign':
+                    dv = TermBuilder(f, d.node).def_term(d.id)
+                    if dv is not None and is_pow4k(dv, K):
+                        okl = True
+    partial = any(is_call(f.term(nd.stmt.iter, nd), 'builtins.range') and len(f.term(nd.stmt.iter, nd)[2]) == 1 and
+                  f.term(nd.stmt.iter, nd)[2][0][0] == 'bin' and f.term(nd.stmt.iter, nd)[2][0][1] == '-' for nd in loops)
+    _tri(run, okl, partial, 'R-SHUF', f, 'all-rows-in-order', loops[0].lineno if loops else f.node.lineno, 'rows 0..4^K-1 in order',
               'the shuffling loop does not run over range(4^K)', inputs='every k')
 
 
@@ -375,6 +404,7 @@ def r_pair(ctx):
     arc_del = [(nd, t) for nd, t in dels if t[0] == 'sub' and t[1][0] == 'sub' and t[1][1][0] == 'v' and t[1][1][1] == 'latter_map']
     key_del = [(nd, t) for nd, t in dels if t[0] == 'sub' and t[1][0] == 'v' and t[1][1] == 'latter_map']
     ok = False
+    recognised = False
     why = 'no deletion of an element of latter_map[u]'
     if len(arc_del) == 1:
         nd, t = arc_del[0]
@@ -394,11 +424,15 @@ def r_pair(ctx):
                         if p[0] == 'bin' and p[1] == '*' and ('c', 4) in (p[2], p[3]):
                             row = p[2] if p[3] == ('c', 4) else p[3]
                             good = strip_int(row) == strip_int(u) and strip_int(q) == strip_int(j)
+            if not good and tgt[0] == 'sub' and call_name(tgt[1]) and call_name(tgt[1]).endswith('.obtain_latters'):
+                good = strip_int(call_arg(tgt[1], 0, 'current')) == strip_int(u) and strip_int(tgt[2]) == strip_int(j) and \
+                    (Kt is None or call_arg(tgt[1], 1, 'observed_length') == Kt)
+                recognised = True
             ok = good
             why = 'the deleted element is %s, not the successor (u*4 + j) mod 4^K of the cleared entry [u, j]' % show(tgt)[:100]
         else:
             why = 'the deleted position is %s, not the position of the removed successor' % show(idx)[:80]
-    run.check(ok, 'R-PAIR', f, 'same-arc-in-both-views', arc_del[0][0].lineno if arc_del else f.node.lineno,
+    _tri(run, ok, bool(arc_del) or not dels, 'R-PAIR', f, 'same-arc-in-both-views', arc_del[0][0].lineno if arc_del else f.node.lineno,
               'the latter map loses the successor of the cleared accessor entry', 'remove_nasty_arc: ' + why,
               inputs='every arc removal: the two views describe different graphs afterwards')
     okk = False
@@ -407,7 +441,12 @@ def r_pair(ctx):
             for atom, pol in ctx.conds(f, nd):
                 if pol and atom[0] == 'cmp' and atom[1] == '==' and atom[3] == ('c', 0) and is_call(atom[2], 'builtins.len'):
                     okk = True
-    run.check(okk, 'R-PAIR', f, 'emptied-key-deleted', key_del[0][0].lineno if key_del else f.node.lineno,
+                # `if not latter_map[u]:`  (an empty list is falsy)
+                if not pol and atom[0] == 'sub' and atom[1][0] == 'v' and atom[1][1] == 'latter_map' and \
+                        strip_int(atom[2]) == strip_int(u):
+                    okk = True
+    # witness: no deletion of a key of the latter map at all (the clean-up was dropped)
+    _tri(run, okk, not key_del, 'R-PAIR', f, 'emptied-key-deleted', key_del[0][0].lineno if key_del else f.node.lineno,
               'latter_map[u] is deleted when it becomes empty',
               'a vertex whose last arc was removed keeps an empty entry in the latter map (accessor_to_latter_map would not '
               'list it): the views diverge', inputs='removing the last arc of a vertex')
@@ -429,7 +468,14 @@ def r_pair(ctx):
                 okrow = row[0] == 'iter' and any(x == ('v', 'latter_map', 'P') for x in walk_term(row[1]))
                 okcol = col[0] == 'bin' and col[1] == '%' and col[3] == ('c', 4) and col[2][0] == 'sub' and \
                     col[2][1] == ('sub', ('v', 'latter_map', 'P'), row)
-                run.check(okrow and okcol, 'R-PAIR', g, 'score-store#%d' % n, nd.lineno,
+                # the successor may also be the loop variable of an iteration over latter_map[row]
+                if not okcol and col[0] == 'bin' and col[1] == '%' and col[3] == ('c', 4) and col[2][0] == 'iter':
+                    src = col[2][1]
+                    while is_call(src, 'builtins.zip', 'builtins.enumerate', 'builtins.list') and src[2]:
+                        src = src[2][0]
+                    okcol = src == ('sub', ('v', 'latter_map', 'P'), row)
+                wit = not (col[0] == 'bin' and col[1] == '%')       # a column that is not `successor mod 4` at all
+                _tri(run, okrow and okcol, okrow and wit, 'R-PAIR', g, 'score-store#%d' % n, nd.lineno,
                           'score stored at (key, successor of that key mod 4)',
                           'a score is stored at [%s, %s]: not (a key of the latter map, one of its successors mod 4), so '
                           'scores can be positive where no arc exists' % (show(row)[:40], show(col)[:60]),
